@@ -121,6 +121,19 @@ CHECKS["C09"] = dict(category="fault_enumeration",
     design_ref="5 (C09), 4.4", technique="TLA+ crash model with a surviving remote process (TLC) + kill-at-k fault enumeration on the real binary in three directions + TLC record validation",
     note="quick explores <= 40 evenly spread k (+ first/last 6) per scenario, thorough every k; ssh stand-in = bash", engine="S")
 
+_HUB_TEXT = ("TLC model-checks N `copia serve` processes at the granularity of libc calls on shared objects (names -> inodes -> chunks, "
+             "commit lock, kill), refinement of the atomic CAS map checked at every step; every complete model behaviour's server order is "
+             "replayed on real server processes under a deterministic scheduler (LD_PRELOAD shim: each tracked call blocks until granted; "
+             "Conform: final tree = the behaviour's), plus seeded random orders, kills, 3 servers, List, bad/short Puts and an adversarial "
+             "corpus; the tree is snapshotted byte-exactly after every visible step; TLC searches a linearization of the atomic map for "
+             "every recorded history.")
+CHECKS["C03"] = dict(category="model_checking", text=_HUB_TEXT + " C03: every history must be linearizable with exactly the observed replies and final tree.", design_ref="5 (C03), 4.6, A7",
+    technique="TLA+ refinement model (TLC) + replay of model schedules on real processes under a deterministic libc-level scheduler + linearizability checking of recorded histories by TLC",
+    note="known finding H12 (List not atomic) is matched by 'accepted once List replies are unconstrained'; everything else is reported", engine="S")
+CHECKS["C10"] = dict(category="model_checking", text=_HUB_TEXT + " C10: Complete on every per-step snapshot and on the final tree, Get body = announced length and hash, bad / short Puts change nothing.", design_ref="5 (C10), 4.6, A8",
+    technique="TLA+ refinement model with kill (TLC) + deterministic scheduling of real server processes with a byte-exact snapshot after every step",
+    note="content classes by byte comparison with the known complete contents (A8)", engine="S")
+
 NOT_BUILT = "check not built yet in this round (planned in DESIGN.md section 5)"
 
 
